@@ -89,6 +89,27 @@ CLAIMS = {
          "interpreter/journal, real ResultAndState, the bundle of a real block, the hardfork matrix -- and the end-to-end composition of the "
          "lemmas over whole schedules (the protocol harness P of the design was not built).",
     design="5/C01"),
+ "C03": dict(
+    text="Bounded model checking of the real commit-time nonce verdict (OrderedCommitter::commit, MIR -> C): for EVERY tx nonce, committed "
+         "sender account (absent / any nonce), speculative post-state, nonce-check setting, deferred reward and database fault the speculative "
+         "result is committed iff the check is off or the nonce equals the nonce in COMMITTED state (and not both u64::MAX); otherwise the "
+         "transaction is left to sequential fallback and nothing is applied; faults carry the transaction index. Plus the real sequential "
+         "suffix replay (Skipped carries revm's InvalidTransaction unchanged, later transactions still run) and the real commit loop (a "
+         "mismatch at the head requests fallback with an exact committed prefix).",
+    note=TRUST + "revm's validate_* decides which transactions are protocol-invalid: it is the oracle's definition and outside the claim. "
+         "2 abstract addresses, 8-bit balances, full 64-bit nonces; ParallelStateCommit::{basic_ref, commit} are ghosts (commit-side state: C10).",
+    design="5/C03"),
+ "C07": dict(
+    text="Bounded model checking of grevm's own fee-recipient rules on the real code: BeneficiaryMode::apply + BeneficiaryReward::from_gas "
+         "(revm's context, journal and reward hook uninterpreted) -- the hook runs exactly once in Immediate mode, for a zero reward and for a "
+         "recipient already in the journal, never otherwise; a reward is deferred iff Deferred mode, fees on, non-zero, recipient not in the "
+         "journal, and equals revm's rule (>= London: price - basefee, saturating; used - reservoir, saturating) for every fork; ordered commit "
+         "folds the deferred reward once into the COMMITTED account with checked add, materialises an absent account, keeps the other fields.",
+    note=TRUST + "Gas quantities/prices bounded to 6 bits in the apply kernel (the 128-bit multiplier is intractable beyond that), 8-bit balances "
+         "in the commit kernel. NOT decided: the beneficiary history (reads folding rewards from the anchor, origin-chain validation, "
+         "incarnation-guarded record/invalidate) -- Kani and the MIR route both need Vec<HistoryEntry> models that were not built; revm's "
+         "touch/materialisation semantics inside the journal.",
+    design="5/C07"),
 }
 NA = {}
 props = [json.loads(l) for l in open(os.path.join(V, "properties.jsonl"))]
